@@ -636,3 +636,104 @@ Section Corollaries.
     exfalso. cbn [Netmap.nexec] in He. inv_ob He. apply usc_inv in Eo as (Hn & Hne & _). lia.
   Qed.
 End Corollaries.
+
+(** * When is a resize accepted?  (the storage.Put(nil) observation) *)
+
+(** A resize has to move a slot that holds nothing (left empty by an earlier
+    enlargement and not yet refilled: the window is shorter than the count). *)
+Definition nil_move (old n id W : Z) : bool :=
+  if old <? n then (id <=? old - 2) && (W <? old)
+  else if id <? n then (id + 1 <=? n - 1) && (W <? n)
+  else W <? n.
+
+Lemma moves_then_deletes (r : gmap Z (list node)) step ks ds :
+  moves_ok step ks -> NoDup ks ->
+  (forall k, k ∈ ks -> 0 <= k <= 255 /\ 0 <= k + step <= 255) ->
+  (forall k, k ∈ ds -> 0 <= k <= 255) ->
+  (exists r2, fold_left delete_slot ds
+     (fold_left (fun a m => move_snapshot a (fst m) (snd m)) (map (fun k => (k + step, k)) ks) (Halt r))
+     = Halt r2) <->
+  (forall k, k ∈ ks -> is_Some (r !! (k + step))).
+Proof.
+  intros Hok Hnd Hrg Hdr.
+  pose proof (move_fold_spec step ks r r Hok Hnd Hrg (fun _ _ => eq_refl)) as HM.
+  destruct (fold_left _ (map _ ks) (Halt r)) as [r1|].
+  - destruct HM as [Hall _]. split; [intros _; exact Hall|]. intros _.
+    destruct (delete_fold_spec ds r1 Hdr) as (r2 & Hf & _). eauto.
+  - destruct HM as (k & Hk & Hn). rewrite delete_fold_fault. split; [intros (r2 & [=])|].
+    intros Hall. destruct (Hall k Hk) as [v Hv]. congruence.
+Qed.
+
+Lemma is_Some_slot_val id K W E pub i :
+  is_Some (slot_val id K W E pub i) <-> 0 <= i < K /\ dist id K i < W.
+Proof.
+  unfold slot_val. destruct ((0 <=? i) && (i <? K) && (dist id K i <? W)) eqn:Hb.
+  - split; [lia|eauto].
+  - split; [intros H; by apply is_Some_None in H|lia].
+Qed.
+
+Lemma resize_halts_iff s h n :
+  ring_inv s h -> 1 <= n <= 254 -> n <> count s ->
+  (exists r2, resize_ring (ring s) (count s) n (cur s) = Halt r2) <->
+  nil_move (count s) n (cur s) (win h) = false.
+Proof.
+  intros ((Hc & Hi) & Hw & Hr) Hn Hne. unfold resize_ring, resize_moves, resize_dels, nil_move.
+  destruct (Z.ltb_spec (count s) n) as [Hlt|Hge].
+  - cbv zeta.
+    rewrite (map_ext _ (fun k => (k + (- (n - count s)), k))) by (intros k; f_equal; lia).
+    assert (Hneg : - (n - count s) < 0) by lia.
+    rewrite moves_then_deletes.
+    + split.
+      * intros Hall. destruct ((cur s <=? count s - 2) && (win h <? count s)) eqn:Hb; [|reflexivity].
+        exfalso. specialize (Hall (n - count s + cur s + 1)). rewrite Hr, is_Some_slot_val in Hall.
+        destruct Hall as [_ Hd]; [apply elem_of_rev_zrange; lia|]. revert Hd. unfold dist. zcmp; lia.
+      * intros Hb k Hk. apply elem_of_rev_zrange in Hk. rewrite Hr, is_Some_slot_val.
+        unfold dist. zcmp; lia.
+    + by apply moves_ok_desc.
+    + apply NoDup_ListNoDup, NoDup_rev, NoDup_ListNoDup, NoDup_zrange.
+    + intros k Hk. apply elem_of_rev_zrange in Hk. lia.
+    + intros k Hk. apply elem_of_zrange in Hk. lia.
+  - destruct (Z.ltb_spec (cur s) n) as [Hidn|Hidn].
+    + rewrite moves_then_deletes.
+      * split.
+        -- intros Hall. destruct ((cur s + 1 <=? n - 1) && (win h <? n)) eqn:Hb; [|reflexivity].
+           exfalso. specialize (Hall (cur s + 1)). rewrite Hr, is_Some_slot_val in Hall.
+           destruct Hall as [_ Hd]; [apply elem_of_zrange; lia|]. revert Hd. unfold dist. zcmp; lia.
+        -- intros Hb k Hk. apply elem_of_zrange in Hk. rewrite Hr, is_Some_slot_val.
+           unfold dist. zcmp; lia.
+      * apply moves_ok_asc. lia.
+      * apply NoDup_zrange.
+      * intros k Hk. apply elem_of_zrange in Hk. lia.
+      * intros k Hk. apply elem_of_zrange in Hk. lia.
+    + rewrite moves_then_deletes.
+      * split.
+        -- intros Hall. destruct (win h <? n) eqn:Hb; [|reflexivity].
+           exfalso. specialize (Hall 0). rewrite Hr, is_Some_slot_val in Hall.
+           destruct Hall as [_ Hd]; [apply elem_of_zrange; lia|]. revert Hd. unfold dist. zcmp; lia.
+        -- intros Hb k Hk. apply elem_of_zrange in Hk. rewrite Hr, is_Some_slot_val.
+           unfold dist. zcmp; lia.
+      * apply moves_ok_asc. lia.
+      * apply NoDup_zrange.
+      * intros k Hk. apply elem_of_zrange in Hk. lia.
+      * intros k Hk. apply elem_of_zrange in Hk. lia.
+Qed.
+
+Section Accept.
+  Variable sub_ok : bytes -> bool.
+  Variable sub_accepts : bytes -> Z -> bool.
+
+  Lemma resize_accept_iff c s h n :
+    ring_inv s h ->
+    (exists s' ns, nexec sub_ok sub_accepts c s (UpdateSnapshotCount n) = Halt (s', ns)) <->
+    (alpha c = true /\ 1 <= n <= 254 /\ n <> count s /\ nil_move (count s) n (cur s) (win h) = false).
+  Proof.
+    intros Hr. split.
+    - intros (s' & ns & He). cbn [nexec] in He. inv_ob He. injection He as <- <-.
+      apply usc_inv in Eo as (Hn & Hne & r2 & Hrz & _).
+      repeat split; try assumption; try lia. apply (resize_halts_iff s h n Hr Hn Hne). eauto.
+    - intros (Ha & Hn & Hne & Hnil). apply (resize_halts_iff s h n Hr Hn Hne) in Hnil as (r2 & Hrz).
+      cbn [nexec]. rewrite Ha. cbn [oassert obind]. unfold update_snapshot_count.
+      replace (negb (n <=? 0)) with true by lia. replace (negb (n >=? 255)) with true by lia.
+      replace (negb (count s =? n)) with true by lia. cbn [oassert obind]. rewrite Hrz. cbn [obind]. eauto.
+  Qed.
+End Accept.
